@@ -18,6 +18,9 @@ pub open spec fn scoped(c0: Context, c1: Context) -> bool {
     &&& c1.scopes().len() == c0.scopes().len()
     &&& c1.scopes().drop_last() == c0.scopes().drop_last()
     &&& sub_scope(c0.scopes().last(), c1.scopes().last())
+    // the program and the diagnostics of included files are only touched by the top-level loop
+    &&& c1.program == c0.program
+    &&& c1.semantic_errors.included() == c0.semantic_errors.included()
 }
 pub broadcast proof fn lemma_scoped_refl(c: Context) requires c.wf(), ensures #[trigger] scoped(c, c) {
     assert(c.errs().take(c.errs().len() as int) =~= c.errs()); assert(c.trace().take(c.trace().len() as int) =~= c.trace());
@@ -76,7 +79,7 @@ pub open spec fn stmt_kind_ok(s: synast::Stmt, r: Option<asg::Stmt>) -> bool {
         synast::Stmt::ClassicalDeclarationStatement(_) => r is Some && r->Some_0 is DeclareClassical,
         synast::Stmt::IODeclarationStatement(d) => r is Some && (if d.sp_input_token() is Some { r->Some_0 is InputDeclaration } else { r->Some_0 is OutputDeclaration }),
         synast::Stmt::QuantumDeclarationStatement(q) => r is Some && (if q.sp_name() is Some { r->Some_0 is DeclareQuantum } else { r->Some_0 is DeclareHardwareQubit }),
-        synast::Stmt::AssignmentStmt(_) => r is Some,
+        synast::Stmt::AssignmentStmt(_) => r is Some && r->Some_0 is Assignment,
         synast::Stmt::BreakStmt(_) => r == Some(asg::Stmt::Break),
         synast::Stmt::ContinueStmt(_) => r == Some(asg::Stmt::Continue),
         synast::Stmt::EndStmt(_) => r == Some(asg::Stmt::End),
@@ -90,7 +93,7 @@ pub open spec fn stmt_kind_ok(s: synast::Stmt, r: Option<asg::Stmt>) -> bool {
         synast::Stmt::Include(_) => r is None,
         synast::Stmt::VersionString(_) => r is None,
         synast::Stmt::AnnotationStatement(_) => r is None,
-        synast::Stmt::ExprStmt(_) => true,
+        synast::Stmt::ExprStmt(e) => expr_stmt_ok(e.sp_expr(), r),
         // not implemented in the graph
         synast::Stmt::OldStyleDeclarationStatement(_) => r == Some(asg::Stmt::NullStmt),
         synast::Stmt::DefCal(_) => r == Some(asg::Stmt::NullStmt),
@@ -126,6 +129,15 @@ pub open spec fn expr_stmt_ok(e: Option<synast::Expr>, r: Option<asg::Stmt>) -> 
 pub open spec fn unsupported_stmt(s: synast::Stmt) -> bool {
     s is OldStyleDeclarationStatement || s is DefCal || s is Cal || s is DefCalGrammar || s is LetStmt || s is Measure || s is ExternStmt || s is VersionString
 }
+/// C06: the statements of the program so far are kept, in order (statements are only appended)
+pub open spec fn stmts_ext(a: Seq<asg::Stmt>, b: Seq<asg::Stmt>) -> bool { a.len() <= b.len() && b.take(a.len() as int) == a }
+pub broadcast proof fn lemma_stmts_ext_refl(a: Seq<asg::Stmt>) ensures #[trigger] stmts_ext(a, a) { assert(a.take(a.len() as int) =~= a); }
+pub broadcast proof fn lemma_stmts_ext_push(a: Seq<asg::Stmt>, b: Seq<asg::Stmt>, x: asg::Stmt)
+    requires #[trigger] stmts_ext(a, b), ensures stmts_ext(a, #[trigger] b.push(x))
+{ assert(b.push(x).take(a.len() as int) =~= b.take(a.len() as int)); }
+pub broadcast proof fn lemma_stmts_ext_trans(a: Seq<asg::Stmt>, b: Seq<asg::Stmt>, c: Seq<asg::Stmt>)
+    requires #[trigger] stmts_ext(a, b), #[trigger] stmts_ext(b, c), ensures stmts_ext(a, c)
+{ assert(c.take(a.len() as int) =~= c.take(b.len() as int).take(a.len() as int)); }
 pub open spec fn cond1(c: bool, k: SemanticErrorKind) -> Seq<SemanticErrorKind> { if c { seq![k] } else { Seq::empty() } }
 
 // ---- C06: operators map to the graph operator of the same meaning ------------------------------
@@ -240,7 +252,7 @@ pub broadcast proof fn lemma_extt_push(a: Seq<context::Ev>, k: context::Ev) ensu
 pub broadcast proof fn lemma_ext_drop_last(b: Seq<SemanticErrorKind>)
     requires b.len() >= 1, ensures ext(#[trigger] b.drop_last(), b)
 { assert(b.take(b.len() - 1) =~= b.drop_last()); }
-pub broadcast group sema_lemmas { lemma_scoped_refl, lemma_scoped_trans, lemma_bind_in, lemma_resolve_bind, lemma_push_drop_last, lemma_enter_exit, lemma_ext_drop_last, lemma_extt_push, lemma_extt_refl, lemma_extt_then_push, lemma_extt_trans, lemma_ext_then_push, lemma_ext_then_add, lemma_ext_add2, lemma_ext_refl, lemma_ext_push, lemma_ext_add, lemma_ext_trans, lemma_add_empty, lemma_add_one }
+pub broadcast group sema_lemmas { lemma_stmts_ext_refl, lemma_stmts_ext_push, lemma_stmts_ext_trans, source::axiom_analyzable_file, lemma_scoped_refl, lemma_scoped_trans, lemma_bind_in, lemma_resolve_bind, lemma_push_drop_last, lemma_enter_exit, lemma_ext_drop_last, lemma_extt_push, lemma_extt_refl, lemma_extt_then_push, lemma_extt_trans, lemma_ext_then_push, lemma_ext_then_add, lemma_ext_add2, lemma_ext_refl, lemma_ext_push, lemma_ext_add, lemma_ext_trans, lemma_add_empty, lemma_add_one }
 
 /// C13, gate calls.  `mid` is the analyser state after the operands and parameters were analysed
 /// (their own diagnostics come first); then the name is resolved once (UndefGateError if that
